@@ -168,7 +168,7 @@ PROPS = {
              "names); 24 signed queries per scenario drawn from: valid (time offset within fudge-10 s), allowed truncation, "
              "corrupted MAC, unknown key, unknown algorithm, key used with the other algorithm, MAC length outside "
              "[max(10,half),full], stale and future times (>= 10 s outside the window), corrupted MAC + stale; key names "
-             "spelled in random case; UDP and TCP; EDNS on/off. distinct = (variant, algorithm, RCODE, TC) classes",
+             "spelled in random case; UDP and TCP; EDNS on/off. distinct = (variant, algorithm, RCODE, TC) classes; every 64th case runs the TSIG size sweep (QNAME length 2..255 x key name near the limit x valid / stale / corrupted / unknown key / short MAC x no EDNS / 512 / server size): every request must get a response",
         assumptions=COMMON_ASSUMPTIONS + [
             "the server reads the real clock: time offsets are drawn >= 10 s inside or outside the fudge window, and server "
             "times are accepted within 5 s of the harness's clock",
@@ -404,7 +404,7 @@ PROPS = {
              "truncations) at every name start, a random offset and the end. All of try_from_compressed, skip_compressed, "
              "try_from_uncompressed(_all), validate_uncompressed(_all) are compared on accept/reject, name and length. "
              "distinct = distinct outcome classes (accept/reject reason, label count, pointer count, field length, "
-             "skip length, uncompressed verdicts)",
+             "skip length, uncompressed verdicts); one in forty structured buffers is a chain of 100-280 strictly backward pointers (bare, or occasionally carrying a label)",
         assumptions=COMMON_ASSUMPTIONS + ["error *kinds* are not compared, only acceptance, name and length"],
         quick=plans(dict(build="dbg", nshards=16), dict(build="miri", nshards=4, timeout=900)),
         thorough=plans(dict(build="dbg", nshards=16), dict(build="rel", nshards=16),
@@ -435,7 +435,7 @@ PROPS = {
              "==, Hash, cmp, eq_or_subdomain_of, LowercaseName, labels; triples: transitivity and sorting; random and "
              "mutated text strings: acceptance equals the reference parser's; random NameBuilder programs with "
              "failed-operation atomicity. distinct = outcome classes (label count, wire length bucket, wildcard, "
-             "escapes; pair relation; text verdict; builder outcome); pools also contain wire-confusable names: one label whose octets are junk plus the wire form of a suffix of another pool name",
+             "escapes; pair relation; text verdict; builder outcome); pools also contain wire-confusable names: one label whose octets are junk plus the wire form of a suffix of another pool name; every generated text is also parsed straight into a LowercaseName and compared with the lower-cased reference (a third of the decimal escapes fall in 060..124)",
         assumptions=COMMON_ASSUMPTIONS + ["hash comparison uses std DefaultHasher with its fixed keys; a 2^-64 collision would be a false alarm"],
         quick=plans(dict(build="dbg", nshards=16), dict(build="miri", nshards=4, timeout=900)),
         thorough=plans(dict(build="dbg", nshards=16), dict(build="rel", nshards=16),
